@@ -275,7 +275,7 @@ func checkC01(c *Ctx, k KCase) *Verdict {
 			anyAsync = true
 		}
 	}
-	if anyAsync && (c.Thorough() || k.Salt%2 == 0) {
+	if anyAsync {
 		v2 := &Verdict{Features: v.Features}
 		o2 := runExec(c, k, v2, true, func(ir *injRun, k KCase, b *Built) []*Plan {
 			if !ir.r.HasAsync {
